@@ -189,7 +189,9 @@ func depthUnit(r *vh.Rng, n int, casesDir string, sum *vh.Summary) {
 		rconn := unitConn{rd, &recWriter{}}
 		fail := -1
 		bad := ""
-		func() {
+		finished := make(chan struct{})
+		go func() {
+			defer close(finished)
 			defer func() {
 				if x := recover(); x != nil {
 					bad = "panic while reading messages"
@@ -230,6 +232,12 @@ func depthUnit(r *vh.Rng, n int, casesDir string, sum *vh.Summary) {
 				}
 			}
 		}()
+		select {
+		case <-finished:
+		case <-time.After(20 * time.Second):
+			sum.FailC("depth", "hang:"+name, "reading messages from a memory connection did not end", map[string]interface{}{"codec": name, "maxdepth": md, "seed_index": i})
+			continue
+		}
 		cj := map[string]interface{}{"codec": name, "maxdepth": md, "rbs": rbs, "response": response, "messages": k, "first_failed": fail, "seed_index": i}
 		class := fmt.Sprintf("depth:%s:maxdepth%s", name, map[bool]string{true: "=default", false: "=set"}[md == 0])
 		if bad != "" {
@@ -325,17 +333,23 @@ func longLived(cfg rpcConfig, maxDepth, seqCalls, concCalls int) (fails []vh.Fai
 		}
 		return true
 	}
-	wait := func(call *rpc.Call) (error, bool) {
+	// Client.Go writes the request itself and blocks when the peer has stopped reading:
+	// the whole call runs under the watchdog
+	do := func(c callSpec) (error, bool) {
+		ch := make(chan error, 1)
+		go func() { ch <- client.Call(c.method, c.args, c.reply) }()
 		select {
-		case <-call.Done:
-			return call.Error, true
+		case err := <-ch:
+			return err, true
 		case <-time.After(deadline):
+			cliRaw.Close() // releases the blocked writer / reader of this run
+			srvRaw.Close()
 			return nil, false
 		}
 	}
 	for i := 0; i < seqCalls; i++ {
 		c := mkCall(r, i)
-		err, ok := wait(client.Go(c.method, c.args, c.reply, make(chan *rpc.Call, 1)))
+		err, ok := do(c)
 		if !ok {
 			fail("hang", "a sequential call on a long-lived connection did not return within the deadline", map[string]interface{}{"call": i})
 			return
@@ -356,7 +370,7 @@ func longLived(cfg rpcConfig, maxDepth, seqCalls, concCalls int) (fails []vh.Fai
 			wg.Add(1)
 			go func(j int) {
 				defer wg.Done()
-				errs[j], oks[j] = wait(client.Go(calls[j].method, calls[j].args, calls[j].reply, make(chan *rpc.Call, 1)))
+				errs[j], oks[j] = do(calls[j])
 			}(j)
 		}
 		wg.Wait()
